@@ -7,6 +7,8 @@ orders in the thorough tier).  Election.prog is NOT stubbed here (stdout is redi
 Oracle: count() is terminated by the injected interrupt (it must propagate); no renderer raises; the interruption marker
 appears exactly once; the report contains the 'terminated prematurely' line; the JSON parses; the recorded actions minus the
 marker are, action for action and field for field, a prefix of the uninterrupted record of the same election.
+The command-line driver Droop.main (which catches the interrupt itself) is driven the same way for five rules, asking for report / dump / json
+separately and together: every rendering it returns must be marked.
 Determinism pre-check per pair: the traced and the untraced full run give identical records and K is identical on two runs
 (hard error, exit 2, otherwise).
 """
@@ -143,8 +145,75 @@ class C19(Check):
             orders = [('report', 'dump', 'json')] if tier == 'quick' else list(itertools.permutations(('report', 'dump', 'json')))
             for lo in range(1, K + 1, self.CHUNK):
                 yield {'label': label, 'case': case, 'cfg': cfg, 'lo': lo, 'hi': min(K, lo + self.CHUNK - 1), 'K': K, 'orders': orders}
+            if cfg in ({'rule': 'wigm'}, {'rule': 'meek'}, {'rule': 'scotland'}, {'rule': 'mpls'}, {'rule': 'qpq'}):
+                # the command-line driver on the same pairs, every 7th interruption point (thorough: every 2nd)
+                step = 7 if tier == 'quick' else 2
+                for lo in range(1, K + 1, self.CHUNK * 2):
+                    yield {'k': 'cli', 'label': label, 'case': case, 'cfg': cfg, 'lo': lo, 'hi': min(K, lo + self.CHUNK * 2 - 1), 'K': K, 'step': step}
+
+    def cli(self, c, acc):
+        "Droop.main catches the interrupt itself; whatever renderings it was asked for must be marked"
+        import importlib
+        import os
+        import tempfile
+        if repo.REPO not in sys.path:
+            sys.path.insert(0, repo.REPO)
+        Droop = importlib.import_module('Droop')
+        text = ecase.text(c['case'])
+        fd, path = tempfile.mkstemp(suffix='.blt')
+        saved_prog = Election.__dict__['prog']
+        saved_out = sys.stdout
+        try:
+            with os.fdopen(fd, 'w') as f:
+                f.write(text)
+            for k in range(c['lo'], c['hi'] + 1, c['step']):
+                for want in (('report',), ('dump',), ('json',), ('dump', 'json')):
+                    acc.evaluations += 1
+                    opts = dict(c['cfg'], path=path, report='report' in want, dump='dump' in want, json='json' in want)
+                    inj = Injector(k)
+                    Election.prog = _real_prog()
+                    sys.stdout = io.StringIO()
+                    out = None
+                    err = None
+                    try:
+                        # count line events only inside Election.count(): start the tracer when count() is entered
+                        orig_count = Election.count
+
+                        def traced_count(self, _orig=orig_count, _inj=inj):
+                            sys.settrace(_inj.glob)
+                            try:
+                                return _orig(self)
+                            finally:
+                                sys.settrace(None)
+                        Election.count = traced_count
+                        try:
+                            out = Droop.main(opts)
+                        except BaseException as e:     # pylint: disable=broad-except
+                            err = e
+                        finally:
+                            Election.count = orig_count
+                            sys.settrace(None)
+                    finally:
+                        sys.stdout = saved_out
+                        Election.prog = saved_prog
+                    where = 'Droop.main(%s) interrupted at line event %d (%s, %s)' % ('+'.join(want), k, c['label'], configs.cfg_str(c['cfg']))
+                    one = dict(c, lo=k, hi=k)
+                    if err is not None:
+                        acc.violation('C19|cli|%s-raises-%s' % ('+'.join(want), type(err).__name__), '%s raised %r' % (where, err), one)
+                        continue
+                    if not inj.fired:
+                        continue
+                    if 'report' in want and 'terminated prematurely' not in out:
+                        acc.violation('C19|cli|report-unmarked', 'report lacks the "terminated prematurely" line: %s' % where, one)
+                    if ('dump' in want or 'json' in want) and out.count(MARK) != len([w for w in want if w != 'report']) + (1 if 'report' in want else 0):
+                        acc.violation('C19|cli|%s-unmarked' % '+'.join(want), 'output carries the interruption marker %d times: %s' % (out.count(MARK), where), one)
+                    acc.nontrivial_count += 1
+        finally:
+            os.unlink(path)
 
     def check(self, c, acc):
+        if c.get('k') == 'cli':
+            return self.cli(c, acc)
         text = ecase.text(c['case'])
         cfg = c['cfg']
         rule = cfg['rule']
